@@ -36,7 +36,9 @@ type Real32 struct {
 var Real32Type ScalarType = NewReal32(0.0).Type()
 func init() {
   f := func(value float64) Scalar { return NewReal32(float32(value)) }
+  g := func(value float64) MagicScalar { return NewReal32(float32(value)) }
   RegisterScalar(Real32Type, f)
+  RegisterMagicScalar(Real32Type, g)
 }
 /* constructors
  * -------------------------------------------------------------------------- */
@@ -79,7 +81,7 @@ func (a *Real32) ConvertScalar(t ScalarType) Scalar {
   default:
     r := NullScalar(t)
     r.Set(a)
-    return a
+    return r
   }
 }
 func (a *Real32) ConvertMagicScalar(t ScalarType) MagicScalar {
@@ -87,9 +89,9 @@ func (a *Real32) ConvertMagicScalar(t ScalarType) MagicScalar {
   case Real32Type:
     return a
   default:
-    r := NullScalar(t)
+    r := NullMagicScalar(t)
     r.Set(a)
-    return a
+    return r
   }
 }
 func (a *Real32) ConvertConstScalar(t ScalarType) ConstScalar {
